@@ -488,3 +488,56 @@ Proof.
   destruct (startup_clean h init NC NS eq_refl eq_refl) as [F C]. change (runs init h) with (run h) in *.
   rewrite Cr, F, C. reflexivity.
 Qed.
+
+(* ---------- teardown callbacks that raise ---------- *)
+Lemma raised_by_nil o : raised_by [] o = [].
+Proof. unfold raised_by. induction (ran o) as [|x r IH]; simpl; auto. Qed.
+
+(* without raising callbacks nothing changes *)
+Theorem finish_r_without_raisers : forall cli s, finish_r cli [] s = finish cli s.
+Proof.
+  intros cli s. unfold finish_r. destruct (finish cli s) as [[o out]|]; [|reflexivity].
+  now rewrite raised_by_nil.
+Qed.
+
+(* raising callbacks do not change the teardown: the same callbacks are invoked, in the same order, with the
+   same arguments, and the same service tasks are stopped *)
+Theorem raisers_do_not_change_the_teardown : forall cli raisers s o out,
+  finish_r cli raisers s = Some (o, out) -> exists out0, finish cli s = Some (o, out0).
+Proof.
+  intros cli raisers s o out H. unfold finish_r in H.
+  destruct (finish cli s) as [[o0 out0]|]; [|discriminate].
+  inversion H; subst. eauto.
+Qed.
+
+(* exactly the raising callbacks among those that ran, in the order in which they ran *)
+Theorem raised_are_the_raisers_that_ran : forall raisers o id,
+  In id (raised_by raisers o) <-> In id (ran o) /\ In id raisers.
+Proof.
+  intros raisers o id. unfold raised_by. rewrite filter_In. split; intros [A B]; split; auto.
+  - apply existsb_exists in B. destruct B as (x & Hx & E). apply Nat.eqb_eq in E. now subst.
+  - apply existsb_exists. exists id. split; auto. apply Nat.eqb_refl.
+Qed.
+
+(* when none of the callbacks that ran raises, run_application ends as it would have *)
+Theorem quiet_callbacks_keep_the_outcome : forall cli raisers s o out,
+  finish cli s = Some (o, out) -> raised_by raisers o = [] -> finish_r cli raisers s = Some (o, out).
+Proof. intros cli raisers s o out H R. unfold finish_r. now rewrite H, R. Qed.
+
+(* when some do, what comes out of run_application is one group of exactly their exceptions -- whatever the
+   status would have been -- together with the crash of a service task if that ended the application *)
+Theorem raising_callbacks_surface : forall cli raisers s o out,
+  finish cli s = Some (o, out) -> raised_by raisers o <> [] ->
+  finish_r cli raisers s =
+  Some (o, ORaisedTd (raised_by raisers o) (match out with ORaised (XCrash sid) => Some sid | _ => None end)).
+Proof.
+  intros cli raisers s o out H R. unfold finish_r. rewrite H.
+  destruct (raised_by raisers o) as [|x r]; [congruence|reflexivity].
+Qed.
+
+(* the application has ended with raising callbacks iff it has ended without them *)
+Theorem raisers_do_not_decide_the_end : forall cli raisers s,
+  finish_r cli raisers s = None <-> finish cli s = None.
+Proof.
+  intros cli raisers s. unfold finish_r. destruct (finish cli s) as [[o out]|]; split; intro H; try discriminate; auto.
+Qed.
